@@ -203,7 +203,7 @@ func main() {
 		cfg := &sym.Config{
 			MaxInstr: def64(tc.MaxInstr, 3_000_000), MaxAlloc: defInt(tc.MaxAlloc, 4096), MaxFanout: defInt(tc.MaxFanout, 64),
 			MaxDecisions: defInt(tc.MaxDecisions, 2000), MaxPaths: defInt(tc.MaxPaths, 200000), ReverseMaps: tc.ReverseMaps,
-			Bounds: tc.Bounds, Solver: *solver, TimeoutMs: defInt(tc.TimeoutMs, 20000), Workers: *workers, Seed: seed,
+			Bounds: tc.Bounds, Solver: *solver, TimeoutMs: defInt(tc.TimeoutMs, 60000), Workers: *workers, Seed: seed,
 			Samples: 4, MaxViolPerLabel: 2, NoInitOK: map[string]bool{}, BudgetS: tc.BudgetS, Progress: *verbose, PreemptAtSync: tc.PreemptAtSync, RaceMaps: tc.RaceMaps, MaxPreemptions: defInt(tc.MaxPreemptions, 3),
 		}
 		if *tier == "thorough" {
